@@ -18,6 +18,9 @@ def jobs(tier):
         dict(name='newick-multi-tree-n3e2', harness=H, entry='main_c18', defines=dict(NN=3, NE=2, TP_HI=0, SP_HI=1),
              timeout=900, require_tags={'end': 1, 'accept': 1, 'internal-root': 1}),
     ]
+    q.append(dict(name='newick-fractional-times', harness=H, entry='main_c18',
+                  defines=dict(NN=4, NE=3, NE_MIN=2, ONE_TREE=1, TP_LO=5, TP_HI=5, SP_HI=0), timeout=900,
+                  require_tags={'end': 1, 'accept': 1, 'internal-root': 1}))
     if tier == 'quick':
         return q
     return q + [
@@ -39,13 +42,13 @@ def conds(tier):
 
 
 BOUNDS = {
-    'quick': 'C writer: every one-tree sequence with 4 nodes / 1-3 edges (4 time profiles incl. negative times x 3 sample '
-             'profiles) and every 3-node 2-edge multi-tree class (first and last tree), every node as root, precision 0-2, both '
+    'quick': 'C writer: every one-tree sequence with 4 nodes / 1-3 edges (4 integer time profiles incl. negative times x 3 sample '
+             'profiles, plus one profile of fractional dyadic times) and every 3-node 2-edge multi-tree class (first and last tree), every node as root, precision 0-2, both '
              'label styles, buffer size one solver variable in [0,160]; Python: buffer-size estimate on two tree shapes with '
              'symbolic integer node times; wrap_text for lengths 1-12 and widths 0-6',
     'thorough': 'plus 5-node 4-edge one-tree sequences (time-boxed) and 5x CrossHair budgets',
 }
-OUTSIDE = ['digits of non-integer branch lengths (printf rounding)', 'the general Python path build_newick with custom node_labels',
+OUTSIDE = ['digits of branch lengths that are not exactly representable (printf rounding is delegated to the snprintf stub)', 'the general Python path build_newick with custom node_labels',
            'write_nexus / write_fasta record assembly (numpy alignments)', 'third-party parsers']
 ASSUMPTIONS = ['interface contract between the halves: the C writer succeeds iff buffer_size >= len(text)+1 (asserted in the C '
                'harness, assumed by the Python contracts)', 'snprintf stub formats concrete numbers with Python % formatting',
